@@ -41,6 +41,17 @@ class Outcome:
         self.stats[k] = self.stats.get(k, 0) + n
 
 
+def to_ihex(data):
+    """Plain Intel-HEX: 16-byte data records from address 0 and an EOF record."""
+    out = []
+    for off in range(0, len(data), 16):
+        chunk = data[off:off + 16]
+        rec = bytes([len(chunk), (off >> 8) & 0xFF, off & 0xFF, 0]) + chunk
+        out.append(":" + rec.hex().upper() + f"{(-sum(rec)) & 0xFF:02X}")
+    out.append(":00000001FF")
+    return "\n".join(out) + "\n"
+
+
 def wellformed(data):
     """The line format, independent of the library's decoder: exactly five integer fields and a payload separated by ';'
     (trailing whitespace is not part of the line). Returns the six fields or None."""
@@ -389,6 +400,10 @@ class LockStep:
                 if eng.hook_error is not None:
                     raise HarnessError("monitor hook failed in final drain") from eng.hook_error
                 self.judge_sends()
+        if getattr(self, "_fwdir", None):
+            import shutil
+            shutil.rmtree(self._fwdir, ignore_errors=True)
+            self._fwdir = None
         return out
 
     def save_only(self, idx, ext):
@@ -494,6 +509,45 @@ class LockStep:
         out, eng, mdl = self.out, self.eng, self.mdl
         nids, ft, fv, fhex = stp[1:5]
         sleeping = frozenset(mdl.sleeping)
+        if isinstance(fhex, str) and fhex.startswith("HEXFILE:"):
+            # update through an Intel-HEX FILE at one fixed path per history: first a valid file ("HEXFILE:<image hex>"), later
+            # ("HEXFILE:garbage") the file at that very path replaced by garbage of the same size and modification time -
+            # the second call has no firmware and must change nothing
+            import os
+            import tempfile
+
+            if getattr(self, "_fwdir", None) is None:
+                self._fwdir = tempfile.mkdtemp(prefix="vf-fwfile-")
+            path = os.path.join(self._fwdir, "firmware.hex")
+            what = fhex[8:]
+            if what == "garbage":
+                if not os.path.exists(path):
+                    out.kinds.append("ctl-fw-skipped")
+                    return
+                st_ = os.stat(path)
+                with open(path, "w", encoding="utf-8") as fh:
+                    fh.write(("not a hex file " * (st_.st_size // 15 + 1))[:st_.st_size])
+                os.utime(path, ns=(st_.st_atime_ns, st_.st_mtime_ns))
+                eng.call("fwpath", nids, ft, fv, path, drain=False)
+                out.kinds.append("ctl-fw-file-without-firmware")
+                out.count("fw_files_replaced_by_garbage")
+            else:
+                img = bytes.fromhex(what)
+                with open(path, "w", encoding="utf-8") as fh:
+                    fh.write(to_ihex(img))
+                err = eng.call("fwpath", nids, ft, fv, path, drain=False)
+                try:
+                    it, iv = int(ft), int(fv)
+                except (TypeError, ValueError):
+                    it = iv = None
+                if it is not None and 0 <= it <= 65535 and 0 <= iv <= 65535 and err is None and img:
+                    mdl.update_fw(nids, it, iv, img)
+                out.kinds.append("ctl-fw")
+                out.count("fw_files_loaded")
+            self.pending[eng.step] = dict(exp=[], kind="ctl-fw", concerned=set(), t=time.time(), burst=None, sleeping=sleeping)
+            if drain:
+                eng.drain()
+            return
         if isinstance(fhex, str) and fhex.startswith("FILE:"):
             # update through a firmware FILE that carries no firmware (Intel-HEX without data records, blank, missing):
             # there is nothing to schedule - the call must leave sessions, reboot flags and loaded firmware alone
